@@ -93,6 +93,8 @@ def judge(which, ops, obs):
                             % (o[1], ch[0], ch[1], sp[4], sp[5], pt[5]))
             if o[0] == 'close' and r[0] == 3 and sp[5]:
                 return ('stale-fd', 'close(force=%s) raised but child_fd still holds the released descriptor number' % o[1])
+            if o[0] == 'drop' and (ch[0] or not ch[1] or pt[5] or closes != 1):
+                return ('drop', 'after the object was dropped: child alive=%s reaped=%s descriptor open=%s, closed %d times in total' % (ch[0], ch[1], pt[5], closes))
             if closes > 1:
                 return ('double-close', 'the descriptor was closed %d times' % closes)
     return None
@@ -293,6 +295,12 @@ def real_C10(ctx, pexpect, thorough):
                         if c.child_fd != -1:
                             ctx.hit('C10/stale-fd', 'close(force=False) on a child that ignores HUP/INT left child_fd=%d' % c.child_fd, {'child': name})
                             return
+                        # the descriptor is gone although the child lives on: I/O on the object must fail and must not reach
+                        # whoever owns the old number now
+                        bad = foreign_fd_probe(pexpect, c, fd)
+                        if bad:
+                            ctx.hit('C10/io-after-close', 'pty spawn (%s child) after a close(force=False) that could not end the child: %s' % (name, bad), {'child': name, 'ops': seq})
+                            return
                     elif op == 'terminate_force':
                         r = c.terminate(force=True)
                         if not r or proc_state(pid) is not None:
@@ -317,23 +325,10 @@ def real_C10(ctx, pexpect, thorough):
                 ctx.hit('C10/close', '%s child after %r: /proc state %r (None = gone and reaped), closed=%r child_fd=%r isalive=%r terminated=%r'
                         % (name, seq, st, c.closed, c.child_fd, c.isalive(), c.terminated), {'child': name, 'ops': seq})
                 return
-            # I/O after close fails with an error and does not touch whoever owns the old descriptor number now
-            r0, w0 = os.pipe()
-            fds = [r0, w0]
-            while fd not in fds and len(fds) < 64:
-                a, b = os.pipe()
-                fds += [a, b]
-            try:
-                bad = io_after_close(pexpect, c)
-                if bad:
-                    ctx.hit('C10/io-after-close', 'pty spawn (%s child): %s' % (name, bad), {'child': name})
-                    return
-            finally:
-                for f in fds:
-                    try:
-                        os.close(f)
-                    except OSError:
-                        pass
+            bad = foreign_fd_probe(pexpect, c, fd)
+            if bad:
+                ctx.hit('C10/io-after-close', 'pty spawn (%s child) after %r: %s' % (name, seq, bad), {'child': name, 'ops': seq})
+                return
     fds_after = set(os.listdir('/proc/self/fd'))
     if len(fds_after) > len(fds_before) + 1:
         ctx.hit('C10/fd-leak', 'descriptors leaked: %d open before, %d after %d children' % (len(fds_before), len(fds_after), tried), {})
@@ -375,6 +370,29 @@ def real_C10(ctx, pexpect, thorough):
     ctx.oracle_stats['real_children'] = tried
 
 
+def foreign_fd_probe(pexpect, c, fd):
+    """I/O after close fails with an error and does not touch whoever owns the old descriptor number now: files are opened until
+    the number is taken again, the whole I/O family is called on the object, and every one of those files must still be empty"""
+    fds = []
+    try:
+        while fd not in fds and len(fds) < 64:
+            fds.append(os.memfd_create('verif-probe'))
+        bad = io_after_close(pexpect, c)
+        if bad:
+            return bad
+        for f in fds:
+            n = os.fstat(f).st_size
+            if n:
+                return 'I/O on the closed object wrote %d bytes (%r) into an unrelated file that had been given descriptor number %d' % (n, os.pread(f, 64, 0), f)
+        return None
+    finally:
+        for f in fds:
+            try:
+                os.close(f)
+            except OSError:
+                pass
+
+
 def io_after_close(pexpect, c):
     """after close() every I/O call fails with an error: it neither returns normally nor reports EOF / TIMEOUT as if the
     stream were still the child's (an end-of-file or a timeout would be a statement about a descriptor that is gone)"""
@@ -382,7 +400,10 @@ def io_after_close(pexpect, c):
     calls = [('read_nonblocking', lambda: c.read_nonblocking(1, 0.1)), ('send', lambda: c.send(b'x')), ('sendline', lambda: c.sendline(b'x')),
              ('expect', lambda: c.expect(b'x', timeout=0.1)), ('expect(EOF)', lambda: c.expect(pexpect.EOF, timeout=0.1)),
              ('expect_exact([x, EOF, TIMEOUT])', lambda: c.expect_exact([b'x', pexpect.EOF, pexpect.TIMEOUT], timeout=0.1)),
-             ('read', lambda: c.read()), ('readline', lambda: c.readline())]
+             ('read', lambda: c.read()), ('readline', lambda: c.readline()), ('write', lambda: c.write(b'y')),
+             ('writelines', lambda: c.writelines([b'z'])), ('sendcontrol', lambda: c.sendcontrol('c')), ('sendeof', lambda: c.sendeof()),
+             ('sendintr', lambda: c.sendintr())]
+    calls = [(w_, f_) for w_, f_ in calls if hasattr(c, w_.split('(')[0])]
     for what, fn in calls:
         try:
             r = fn()
